@@ -35,9 +35,9 @@ var props = []Prop{
 		ID:    "C12",
 		Level: "model_checking",
 		Harnesses: append(hs("ecs", true, 4, "HC12_Subscribes", "HC12_SubscriptionBits"),
-			append(hs("listener", true, 4, "HC12_ListenerCopy", "HC12_Callback"), H{Pkg: "listener", Fn: "HC12_Dispatch"}, H{Pkg: "listener", Fn: "HC12_Dispatch", Tags: "tiny", Tier: "thorough"}, H{Pkg: "ecs", Fn: "HC12_World"})...),
+			append(hs("listener", true, 4, "HC12_ListenerCopy", "HC12_Callback"), H{Pkg: "listener", Fn: "HC12_Dispatch"}, H{Pkg: "listener", Fn: "HC12_Dispatch", Tags: "tiny", Tier: "thorough"}, H{Pkg: "listener", Fn: "HC12_DispatchWorld"}, H{Pkg: "ecs", Fn: "HC12_World"})...),
 		Conform: stdConform,
-		Bounds:  "(a) subscribes()/listener copy/subscription bits: all triggers, masks, nil-ness and relation ids (complete); Dispatch: 3 sub-listeners with symbolic (S,C), three construction orders, one symbolic event; (b) world level: a listener with fully symbolic subscription mask S and a symbolic component restriction C (or none) installed after 2 (thorough 5) prefixes, one operation out of the single-entity (11 kinds), batch (5 families with Q variants) and removal/retarget families with every legal argument: every predicted full event (C11 oracle) is delivered iff the documented rule selects it, with exact content",
+		Bounds:  "(a) subscribes()/listener copy/subscription bits: all triggers, masks, nil-ness and relation ids (complete); Dispatch: 3 sub-listeners with symbolic (S,C), three construction orders, one symbolic event; a Dispatch installed in a world (before or after its first sub-listener was added; a second sub-listener joins while installed) against twin worlds where the same listeners are installed alone, fully symbolic subscriptions, 3 x 2 component restrictions, a fixed sequence of 10 operations, logs compared entry by entry (type bits, entity, added mask); (b) world level: a listener with fully symbolic subscription mask S and a symbolic component restriction C (or none) installed after 2 (thorough 5) prefixes, one operation out of the single-entity (11 kinds), batch (5 families with Q variants) and removal/retarget families with every legal argument: every predicted full event (C11 oracle) is delivered iff the documented rule selects it, with exact content",
 		Outside: "Dispatch with more than 3 sub-listeners",
 	},
 	{
